@@ -54,3 +54,47 @@ def run_matrix(tier, jobs=16):
     finally:
         shutil.rmtree(root, ignore_errors=True)
     return results
+
+
+# ------------------------------------------------------------------ "a feature only adds items": per-body MIR fingerprints (local mode of the driver)
+FP_FEATURES = [f for f in FEATURES if f != 'repr_simd']    # repr_simd needs the nightly-only repr(simd) code paths: build matrix only
+
+
+def fingerprint_pairs(tier):
+    bases = ['std'] if tier == 'quick' else ['std', 'libm']
+    out = []
+    for b in bases:
+        exts = [(f,) for f in FP_FEATURES] + [tuple(FP_FEATURES)]
+        out.append((b, exts))
+    return out
+
+
+def run_fingerprints(tier, jobs=8):
+    """returns [(base, ext tuple, missing item paths, changed item paths, n_base, n_ext, error)]"""
+    from . import run as vrun
+    plan = fingerprint_pairs(tier)
+    todo = []
+    for b, exts in plan:
+        todo.append((b, ()))
+        for e in exts: todo.append((b, e))
+
+    def work(cfg):
+        b, e = cfg
+        sc = vrun.scan([], [b] + list(e), local=True)
+        if sc.compile_error is not None: return cfg, None, sc.compile_error[-600:]
+        if not getattr(sc, 'local', None): return cfg, None, 'no local facts'
+        return cfg, sc.local[0].get('fingerprints', {}), None
+    res = {}
+    with ThreadPoolExecutor(max_workers=jobs) as ex:
+        for cfg, fp, err in ex.map(work, todo): res[cfg] = (fp, err)
+    out = []
+    for b, exts in plan:
+        base, berr = res[(b, ())]
+        for e in exts:
+            fp, err = res[(b, e)]
+            if base is None or fp is None:
+                out.append((b, e, [], [], 0, 0, berr or err)); continue
+            missing = sorted(k for k in base if k not in fp)
+            changed = sorted(k for k in base if k in fp and base[k] != fp[k])
+            out.append((b, e, missing, changed, len(base), len(fp), None))
+    return out
